@@ -39,12 +39,20 @@ fn park(emu: &mut Emu, frame: usize) {
 // 128K paging latch would take it) and every port with low byte 0xFC (ULA, paging latch or AY would take it)
 const EXT_CLAIMS: [(u16, u16); 4] = [(0xFFFF, 0xCCCC), (0x00FF, 0x003B), (0xF0FF, 0x10FD), (0x00FF, 0x00FC)];
 
-fn sweep(out: &mut Out, r: &mut Rng, m128: bool, kempston: bool, mouse: bool, ext: bool, ear_high: bool) {
+fn sweep(out: &mut Out, r: &mut Rng, m128: bool, kempston: bool, mouse: bool, ext: bool, ear_high: bool, szx_mouse: Option<u8>) {
     let frame = if m128 { FRAME_128 } else { FRAME_48 };
     let mut cfg = EmuCfg::new(m128);
     cfg.kempston = kempston;
-    cfg.mouse = mouse;
+    cfg.mouse = mouse && szx_mouse.is_none();
     let mut emu = cfg.build();
+    if let Some(t) = szx_mouse {
+        // the device set comes from a snapshot: its mouse chunk names no mouse (0), an AMX mouse (1: nothing at the Kempston
+        // mouse ports) or a Kempston mouse (2)
+        use crate::files::*;
+        assert_eq!(mouse, t == 2);
+        let d = MachineDesc { m128, cpu: CpuDesc { pc: CODE, sp: 0xBF00, ..Default::default() }, border: 0, latch: 0, banks: vec![vec![0u8; 16384]; 8] };
+        emu.load_snapshot(rustzx_core::host::Snapshot::Szx(VAsset::new(szx(&d, &SzxOpts { mouse: Some(t), ..Default::default() })))).expect("szx");
+    }
     poke_bytes(&mut emu, CODE, &[0xED, 0x78, 0xED, 0x79]);
     if ext {
         emu.set_io_extender(VExt::new(EXT_CLAIMS.to_vec(), 0xE7));
@@ -91,7 +99,7 @@ fn sweep(out: &mut Out, r: &mut Rng, m128: bool, kempston: bool, mouse: bool, ex
     };
     out.ev(json!({"ev":"cfg","m": if m128 {128} else {48},"kempston":kempston,"mouse":mouse,
                   "ext": if ext { json!(EXT_CLAIMS.iter().map(|(m, v)| vec![*m, *v]).collect::<Vec<_>>()) } else { json!([]) },
-                  "keys":held,"kemp":0x15,"mousereg":mouse_regs,"ayval":0x40,"extval":0xE7,"ear":ear_high}));
+                  "keys":held,"kemp":0x15,"mousereg":mouse_regs,"ayval":0x40,"extval":0xE7,"ear":ear_high,"szxmouse":szx_mouse.map(|t| t as i32).unwrap_or(-1)}));
 
     // ---- reads: IN A,(C) for every port, beam parked outside the picture
     let mut vals = Vec::with_capacity(65536);
@@ -202,7 +210,8 @@ pub fn run(args: &Args) {
     let first = args.num("first", 0) as usize;
     for i in 0..sweeps as usize {
         let (m128, k, mo, ex) = order[(i + first) % 16];
-        sweep(&mut out, &mut r, m128, k, mo, ex, i % 2 == 1);
+        let szx_mouse = if mo { if i % 2 == 0 { Some(2) } else { None } } else { [Some(1), Some(0), None][i % 3] };
+        sweep(&mut out, &mut r, m128, k, mo, ex, i % 2 == 1, szx_mouse);
     }
     let fl = args.num("floating", 0);
     if fl > 0 {
